@@ -6,16 +6,35 @@ import (
 
 // C10: the process dies at any store event of `migrate apply`; running the
 // same command again completes the migration, per transaction mode.
-func verifC10(maxF, maxS int) { verifC10ck(maxF, maxS, false) }
+func verifC10(maxF, maxS int) { verifC10ck(maxF, maxS, false, false) }
+
+// verifC10dir: every file may carry an atlas:txmode directive (none / file)
+// under the global modes file and none; the guarantees then hold per file
+// according to its effective mode.
+func verifC10dir(maxF, maxS int) { verifC10ck(maxF, maxS, false, true) }
 
 // verifC10ck: with checkpoints, one file (any position) may be tagged as a
 // checkpoint: a first run on the empty database starts there and the files
 // before it are never executed.
-func verifC10ck(maxF, maxS int, checkpoints bool) {
+func verifC10ck(maxF, maxS int, checkpoints, directives bool) {
 	nf := verifChoice("files", maxF) + 1
 	ns := verifChoice("stmts", maxS) + 1
 	mode := verifTxModes[verifChoice("txmode", 3)]
 	sh := verifShape{nf: nf, ns: ns, directive: make([]string, nf), failFile: -1, failStmt: -1}
+	eff := make([]string, nf) // effective transaction mode per file
+	for i := range eff {
+		eff[i] = mode
+	}
+	if directives {
+		verifAssume(mode != txModeAll) // a directive is rejected under --tx-mode all
+		for i := 0; i < nf; i++ {
+			if d := []string{"", txModeNone, txModeFile}[verifChoice(fmt.Sprintf("directive%d", i), 3)]; d != "" {
+				sh.directive[i] = d
+				eff[i] = d
+				verifReach("directive")
+			}
+		}
+	}
 	first := 0 // first file that is executed
 	if checkpoints {
 		sh.ckpt = verifChoice("checkpoint", nf+1)
@@ -59,8 +78,8 @@ func verifC10ck(maxF, maxS int, checkpoints bool) {
 		f := int(r.version[0] - '1')
 		verifAssert(r.applied <= count(mid.journal, f), "the revision table never records a statement whose effect is not in the database")
 	}
-	if mode != txModeNone {
-		for f := 0; f < nf; f++ {
+	for f := 0; f < nf; f++ {
+		if eff[f] != txModeNone {
 			c := count(mid.journal, f)
 			verifAssert(c == 0 || c == ns, "in file and all modes a crash never leaves a file half applied")
 		}
@@ -85,7 +104,7 @@ func verifC10ck(maxF, maxS int, checkpoints bool) {
 				continue
 			}
 			verifAssert(n >= 1, "no statement is lost")
-			if mode != txModeNone {
+			if eff[f] != txModeNone {
 				verifAssert(n == 1, "in file and all modes every statement's effect is present exactly once")
 			} else {
 				verifAssert(n <= 2, "in none mode a statement runs at most twice")
@@ -103,6 +122,8 @@ func verifC10ck(maxF, maxS int, checkpoints bool) {
 }
 
 func VerifHarness_C10_quick()    { verifC10(2, 2) }
-func VerifHarness_C10_ckpt()     { verifC10ck(2, 2, true) }
-func VerifHarness_C10_ckpt3()    { verifC10ck(3, 2, true) }
+func VerifHarness_C10_dir()      { verifC10dir(2, 2) }
+func VerifHarness_C10_dir3()     { verifC10dir(3, 2) }
+func VerifHarness_C10_ckpt()     { verifC10ck(2, 2, true, false) }
+func VerifHarness_C10_ckpt3()    { verifC10ck(3, 2, true, false) }
 func VerifHarness_C10_thorough() { verifC10(3, 2) }
